@@ -46,6 +46,7 @@ class Gen:
         self.in_opt_fn = False
         self.protected = set()
         self.in_for = 0
+        self.kconsts = []
 
     # ------------------------------------------------------------ helpers
     def fresh(self, p="v"):
@@ -264,6 +265,47 @@ class Gen:
             return lit("unit", "unit")
         raise ValueError(ty)
 
+    def const_expr(self, ty, d, avail):
+        """a pure initialiser for a script constant: literals, operators, if with a constant condition, other
+        constants (avail: the ones it may use - chosen so that the reference graph has no cycle)"""
+        r = self.r
+        ks = [c["n"] for c in avail if c["ty"] == ty]
+        if ks and r.random() < 0.35:
+            return {"k": "kconst", "n": r.choice(ks), "ty": ty}
+        if d <= 0:
+            return self.literal(ty)
+        if ty in INT_TYS:
+            op = r.choice(["add", "sub", "mul", "div", "rem"])
+            rhs = ilit(ty, r.choice([1, 2, 3, 5, 7])) if op in ("div", "rem") else self.const_expr(ty, d - 1, avail)
+            return binop(op, ty, self.const_expr(ty, d - 1, avail), rhs)
+        if ty == "bool":
+            f = r.choice(["cmp", "logic", "not"])
+            if f == "cmp":
+                t = r.choice([x for x in self.scalar_tys() if x in INT_TYS] or ["i32"])
+                return binop(r.choice(["eq", "ne", "lt", "le", "gt", "ge"]), t, self.const_expr(t, d - 1, avail), self.const_expr(t, d - 1, avail))
+            if f == "logic":
+                return binop(r.choice(["and", "or"]), "bool", self.const_expr("bool", d - 1, avail), self.const_expr("bool", d - 1, avail))
+            return un("not", "bool", self.const_expr("bool", d - 1, avail))
+        if ty == "str":
+            if r.random() < 0.5:
+                return binop("add", "str", self.const_expr("str", d - 1, avail), self.const_expr("str", d - 1, avail))
+            return if_(self.const_expr("bool", d - 1, avail), block([], self.const_expr("str", d - 1, avail)),
+                       block([], self.const_expr("str", d - 1, avail)))
+        return self.literal(ty)
+
+    def gen_kconsts(self):
+        r = self.r
+        tys = [t for t in self.scalar_tys() if t not in FLOAT_TYS and t != "char"] or ["i32"]
+        n = r.randint(1, 4)
+        cs = []
+        for i in range(n):
+            ty = r.choice(tys)
+            # constant i may use the constants generated before it; the declaration order in the source is shuffled,
+            # so uses before the declaration and across the functions occur
+            cs.append({"n": "K%d" % i, "ty": ty, "e": self.const_expr(ty, r.randint(0, 2), cs), "late": r.random() < 0.4})
+        r.shuffle(cs)
+        self.kconsts = cs
+
     def input(self, ty):
         k = len(self.ins)
         self.ins.append(ty)
@@ -276,6 +318,10 @@ class Gen:
                 ps = [p for p, (t, _) in A.GCONSTS.items() if t == ty]
                 if ps:
                     return {"k": "gconst", "p": r.choice(ps), "ty": ty}
+            if self.kconsts and r.random() < 0.15:
+                ks = [c["n"] for c in self.kconsts if c["ty"] == ty]
+                if ks:
+                    return {"k": "kconst", "n": r.choice(ks), "ty": ty}
             vs = self.vars_of(ty)
             c = r.random()
             if vs and c < 0.45:
@@ -901,6 +947,8 @@ class Gen:
 
     def program(self):
         r = self.r
+        if self.has("kconst"):
+            self.gen_kconsts()
         if self.has("rec") or self.has("enum"):
             self.gen_types(r.randint(0, 3))
         nf = r.randint(0, 3) if self.has("calls") else 0
@@ -940,7 +988,7 @@ class Gen:
             ss.append(host("emit", rec_t, self.tag(), [var(n)]))
         e = self.expr(mrt, self.size, True) if mrt != "unit" else None
         self.fns["main"] = {"ps": ps, "pts": [], "rt": mrt, "b": block(ss, e)}
-        prog = {"types": [self.types[n] for n in self.typelist], "fns": self.fns}
+        prog = {"types": [self.types[n] for n in self.typelist], "fns": self.fns, "consts": self.kconsts}
         return prog, mrt, list(self.ins)
 
     def input_values(self, ins):
